@@ -576,6 +576,15 @@ func init() {
 			pf.Cancellers, pf.CancelOps = [2]int{0, 1}, [2]int{1, 3}
 			pf.Cancel = []wop{{opCloseJob, 6}, {opPurge, 2}}
 			pf.Releaser = 100
+			if r.Chance(20) {
+				// the barriers on the persistent queue kinds (Purge, Len and dequeue go through the
+				// adapter). Not the distributed kinds: their handle is the shared backend itself,
+				// a Purge there - like a dequeue by another process - does not pass through the
+				// worker, which therefore cannot wake its waiters (seen once when they were
+				// included: WaitAndStop asleep after the backend was purged)
+				pf.WKinds = []int{wkPlain}
+				pf.QKinds = []int{qkPers, qkPersPrio}
+			}
 			second := r.Chance(35)
 			if second {
 				// barrier calls on an already paused worker and from two callers at once
@@ -768,6 +777,13 @@ func init() {
 				pf.Wait = []wop{{opResult, 5}, {opWait, 1}, {opWUFw, 5}}
 				pf.ErrReaderPct = 100
 				pf.ErrPct, pf.PanicPct = 20, 12
+				if r.Chance(50) {
+					// ... also when the job panics after the worker was paused under it
+					pf.GatedPct = 50
+					pf.Ctrl = []wop{{opPause, 3}, {opResume, 3}, {opPauseAndWait, 1}}
+					pf.CtrlOps = [2]int{1, 3}
+					pf.Releaser = 100
+				}
 			}
 			return generate(r, pf)
 		},
